@@ -689,7 +689,15 @@ func runBytes(c Case) *vt.Outcome {
 		if rep.failed() {
 			return o
 		}
-		if c.Threads > 1 && !r1.panicked && (r1.reader == "zng" || r1.reader == "csv" || r1.reader == "") {
+		threaded := c.Threads > 1 && !r1.panicked && (r1.reader == "zng" || r1.reader == "csv" || r1.reader == "")
+		if threaded && (r1.err != nil || r1.reader != "zng") {
+			// (auto-detection tries ZNG with Validate forced on)
+			if !zngReadAheadSafe(input, cfg.Validate || via == "auto", rep) || (via == "auto" && !cfg.Validate && !zngReadAheadSafe(input, false, rep)) {
+				threaded = false
+				o.Label("excluded:" + via + "-threads3:listed-panic-in-a-frame-behind-the-first-error")
+			}
+		}
+		if threaded {
 			cfg.Threads = c.Threads
 			r3 := runOnce(input, cfg, rep)
 			o.Label(via + "-threads3:" + outcomeOf(r3))
